@@ -32,6 +32,7 @@ CONSTANTS
   Wipeouts,      \* TRUE: wipeout commands are part of histories
   Collide,       \* TRUE: a serial override may name another key version's certificate object
   Times,         \* certificate creation times a command may carry
+  KeepGoing,     \* values of the --keep_going flag a command may carry ({FALSE} or BOOLEAN)
   Design         \* "atomic" | "legacy_order" | "legacy_template"
 
 VARIABLES
@@ -63,12 +64,13 @@ ObjIds == 0 .. MaxSerial            \* 0 = the root certificate's object in the 
 
 NoCert == [name |-> "", kgen |-> 0, iname |-> "", igen |-> 0, cserial |-> 0, sserial |-> 0, nb |-> 0, life |-> "", ca |-> FALSE]
 NoMan == [proot |-> "", psign |-> "", entries |-> {}]
-NoRegs == [cmd |-> "", ow |-> FALSE, sov |-> 0, t |-> 0, rootCert |-> NoCert, newCert |-> NoCert,
+NoRegs == [cmd |-> "", ow |-> FALSE, kg |-> FALSE, sov |-> 0, t |-> 0, rootCert |-> NoCert, newCert |-> NoCert,
            newName |-> "", oldName |-> "", pending |-> {}, failed |-> FALSE, mutPrimary |-> ""]
 
 Ev(op, a, out) == [op |-> op, arg |-> a, out |-> out]
-\* command parameters as logged by the driver: "<ow|->,<serial flag>,<time>"
-Params(ow, n, t) == (IF ow THEN "ow" ELSE "-") \o "," \o ToString(n) \o "," \o ToString(t)
+\* command parameters as logged by the driver: "<-|ow|kg|owkg>,<serial flag>,<time>"
+Params(ow, kg, n, t) ==
+  (IF ow /\ kg THEN "owkg" ELSE IF ow THEN "ow" ELSE IF kg THEN "kg" ELSE "-") \o "," \o ToString(n) \o "," \o ToString(t)
 Step(e) == ev' = e /\ hist' = Append(hist, e)
 
 EntryOf(m, n) == {e \in m.entries : e.kvn = n}
@@ -115,13 +117,13 @@ Abort ==
 (***************************************************************************)
 (* bootstrap                                                               *)
 (***************************************************************************)
-StartBootstrap(ow, ss, t) ==
+StartBootstrap(ow, kg, ss, t) ==
   /\ pc = "idle" /\ ncmds < MaxCmds
   /\ Rebootstrap \/ (sman = NoMan /\ spem = NoCert /\ \A n \in Names : live[n] = 0)
   /\ ncmds' = ncmds + 1
-  /\ regs' = [NoRegs EXCEPT !.cmd = "bootstrap", !.ow = ow, !.sov = ss, !.t = t]
+  /\ regs' = [NoRegs EXCEPT !.cmd = "bootstrap", !.ow = ow, !.kg = kg, !.sov = ss, !.t = t]
   /\ pc' = "b_root"
-  /\ Step(Ev("Cmd", "bootstrap", Params(ow, ss, t)))
+  /\ Step(Ev("Cmd", "bootstrap", Params(ow, kg, ss, t)))
   /\ UNCHANGED <<live, gen, sman, spem, sobjs, naborts, issued, everRot, boots, lastRet, dirty>>
 
 \* CreateNewRootKey / CreateFirstSigningKey: refuse an existing key unless overwrite
@@ -172,16 +174,27 @@ BSignFirst ==
 ObjFor(p) == IF HasEntry(sman, p.kvn) THEN ObjOf(sman, p.kvn)
              ELSE IF p.kvn = "root" THEN 0 ELSE p.cert.sserial
 \* manifest with the entries of everything uploaded so far by this command
+\* gcsca.upload + writeIfAllowed.  --keep_going ("keep going as long as there is no direct dependency"):
+\* a key version that already has a manifest entry is left alone, and an object that exists is not
+\* overwritten but the command carries on (and still registers the entry for a fresh key version)
 UploadOne ==
   /\ pc = "upload" /\ regs.pending # {}
   /\ \E p \in regs.pending :
-       LET o == ObjFor(p) IN
-       IF sobjs[o] # NoCert /\ ~regs.ow
-         THEN /\ Finish("err") /\ Step(Ev("Return", regs.cmd, "err"))
-              /\ UNCHANGED <<sobjs>>
+       LET o == ObjFor(p)
+           next == IF regs.pending = {p} THEN (IF regs.cmd = "bootstrap" THEN "pem" ELSE "man") ELSE "upload"
+           skip == /\ regs' = [regs EXCEPT !.pending = @ \ {p}]
+                   /\ pc' = next
+                   /\ Step(Ev("SkipObj", ToString(o), "ok"))
+                   /\ UNCHANGED <<sobjs, lastRet, dirty>>
+       IN
+       IF regs.kg /\ HasEntry(sman, p.kvn) THEN skip
+       ELSE IF sobjs[o] # NoCert /\ ~regs.ow
+         THEN IF regs.kg THEN skip
+              ELSE /\ Finish("err") /\ Step(Ev("Return", regs.cmd, "err"))
+                   /\ UNCHANGED <<sobjs>>
          ELSE /\ sobjs' = [sobjs EXCEPT ![o] = p.cert]
               /\ regs' = [regs EXCEPT !.pending = @ \ {p}]
-              /\ pc' = IF regs.pending = {p} THEN (IF regs.cmd = "bootstrap" THEN "pem" ELSE "man") ELSE "upload"
+              /\ pc' = next
               /\ Step(Ev("WriteObj", ToString(o), "ok"))
               /\ UNCHANGED <<lastRet, dirty>>
   /\ UNCHANGED <<live, gen, sman, spem, ncmds, naborts, issued, everRot, boots>>
@@ -189,7 +202,10 @@ UploadOne ==
 WritePem ==
   /\ pc = "pem"
   /\ IF spem # NoCert /\ ~regs.ow
-       THEN /\ Finish("err") /\ Step(Ev("Return", regs.cmd, "err")) /\ UNCHANGED spem
+       THEN IF regs.kg
+              THEN /\ pc' = "man" /\ UNCHANGED <<spem, regs, lastRet, dirty>>       \* not overwritten, carry on
+                   /\ Step(Ev("SkipPem", "root", "ok"))
+              ELSE /\ Finish("err") /\ Step(Ev("Return", regs.cmd, "err")) /\ UNCHANGED spem
        ELSE /\ spem' = regs.rootCert /\ pc' = "man" /\ UNCHANGED <<regs, lastRet, dirty>>
             /\ Step(Ev("WritePem", "root", "ok"))
   /\ UNCHANGED <<live, gen, sman, sobjs, ncmds, naborts, issued, everRot, boots>>
@@ -221,7 +237,7 @@ ReturnOk ==
 (* rotate                                                                  *)
 (***************************************************************************)
 \* the rotate command computes the next serial from the primary's certificate before rotate.Key
-StartRotate(sov, ow, t) ==
+StartRotate(sov, ow, kg, t) ==
   /\ pc = "idle" /\ ncmds < MaxCmds
   /\ ncmds' = ncmds + 1
   /\ LET prev == StoredCert(sman.psign)
@@ -230,17 +246,17 @@ StartRotate(sov, ow, t) ==
        THEN \* no primary certificate to succeed (or the model's bounds are exhausted): refused
             /\ sman.psign = "" \/ prev = NoCert
             /\ regs' = [NoRegs EXCEPT !.cmd = "rotate"] /\ pc' = "r_refused"
-            /\ Step(Ev("Cmd", "rotate", Params(ow, sov, t)))
+            /\ Step(Ev("Cmd", "rotate", Params(ow, kg, sov, t)))
             /\ UNCHANGED <<lastRet, dirty>>
        ELSE \* a serial that names another key version's certificate object: with overwrite the operator
             \* asks for that certificate to be replaced -- excluded from the fault configurations
             \* (Collide = FALSE), where replacing the current primary's certificate before the manifest
             \* switch is the operator's own doing, and included in the command-history ones
             /\ Collide \/ sobjs[serial] = NoCert \/ sobjs[serial].name = KName(VerOf(sman.psign) + 1)
-            /\ regs' = [NoRegs EXCEPT !.cmd = "rotate", !.ow = ow, !.sov = serial, !.t = t,
+            /\ regs' = [NoRegs EXCEPT !.cmd = "rotate", !.ow = ow, !.kg = kg, !.sov = serial, !.t = t,
                                      !.oldName = sman.psign, !.newName = KName(VerOf(sman.psign) + 1)]
             /\ pc' = "r_create"
-            /\ Step(Ev("Cmd", "rotate", Params(ow, sov, t)))
+            /\ Step(Ev("Cmd", "rotate", Params(ow, kg, sov, t)))
             /\ UNCHANGED <<lastRet, dirty>>
   /\ UNCHANGED <<live, gen, sman, spem, sobjs, naborts, issued, everRot, boots>>
 
@@ -337,9 +353,9 @@ Endorse ==
   /\ UNCHANGED <<live, gen, sman, spem, sobjs, pc, regs, ncmds, naborts, everRot, boots, lastRet, dirty>>
 
 Next ==
-  \/ \E ow \in BOOLEAN, ss \in {2, 4}, t \in Times : StartBootstrap(ow, ss, t)
+  \/ \E ow \in BOOLEAN, kg \in KeepGoing, ss \in {2, 4}, t \in Times : StartBootstrap(ow, kg, ss, t)
   \/ BRoot \/ BFirst \/ BSignRoot \/ BSignFirst \/ UploadOne \/ WritePem \/ WriteMan
-  \/ \E sov \in {0, MaxSerial}, ow \in BOOLEAN, t \in Times : StartRotate(sov, ow, t)
+  \/ \E sov \in {0, MaxSerial}, ow \in BOOLEAN, kg \in KeepGoing, t \in Times : StartRotate(sov, ow, kg, t)
   \/ RCreate \/ RSign \/ RSignFails \/ RPrimary \/ RDestroy \/ RReturnLegacy \/ ReturnOk \/ RRefused
   \/ \E w \in {"ca", "keys", "all"} : Wipe(w)
   \/ Endorse \/ Abort
